@@ -279,7 +279,13 @@ pub fn run(scn: &Value) -> Value {
         boundaries.push(he); if i(&reqs[k]["b"]) > 0 { hb.push(he) }
         stream.extend_from_slice(&c.bytes); boundaries.push(stream.len()); ends.push(stream.len()) }
     let bad_ends: Vec<usize> = reqs.iter().enumerate().filter(|(_, r)| r["bad"].as_bool().unwrap_or(false)).map(|(k, _)| ends[k]).collect();
-    let segs = segments(&stream, arr(&scn["cuts"]), &boundaries, &hb, &bad_ends, seed);
+    let mut segs = segments(&stream, arr(&scn["cuts"]), &boundaries, &hb, &bad_ends, seed);
+    // drip: the whole stream in segments of k bytes (a terminal, a tiny MSS, a proxy that forwards small records): a head of some hundred bytes
+    // then takes some hundred reads
+    if let Some(k) = scn["drip"].as_u64().filter(|k| *k > 0) { segs = stream.chunks(k as usize).map(|c| c.to_vec()).collect() }
+    // abandon: the segment that brings the end of the last request also brings the beginning of one more, which the client never finishes
+    // (it half-closes and reads what it is owed): not a request, and no reason to withhold the responses to the requests before it
+    if scn["abandon"].as_bool().unwrap_or(false) { if let Some(l) = segs.last_mut() { l.extend_from_slice([&b"GET /r/99?x=1 HT"[..], &b"\r\n"[..], &b"POST /r/98 HTTP/1.1\r\nHost: h\r\nContent-Le"[..]][(seed % 3) as usize]) } }
     // mem
     let (out, end, unread) = run_mem(&router, segs.clone());
     let mem = json!({"resp": classify(&out, &concs, &fresh), "end": end, "unread": unread});
@@ -315,6 +321,10 @@ pub fn gen(rng: &mut Rng, idx: usize) -> Value {
         cs
     };
     cuts.sort(); cuts.dedup();
-    json!({"id": idx, "seed": rng.next() % 1000, "mode": if c05 { "c05" } else { "c06" }, "reqs": reqs, "cuts": cuts,
+    let plain = !anybad && !reqs.iter().any(|r| r["lead"].as_bool().unwrap_or(false));
+    let small = n <= 3 && reqs.iter().all(|r| i(&r["b"]) <= 2);
+    let drip = if !c05 && plain && small && rng.chance(1, 2) { *rng.pick(&[1u64, 2, 3, 5, 7]) } else { 0 };
+    let abandon = !c05 && plain && drip == 0 && !reqs.last().map(|r| r["close"].as_bool().unwrap_or(false)).unwrap_or(true) && rng.chance(1, 5);
+    json!({"id": idx, "seed": rng.next() % 1000, "mode": if c05 { "c05" } else { "c06" }, "reqs": reqs, "cuts": cuts, "drip": drip, "abandon": abandon,
            "model": {"resp": [], "dropped": false, "fin": "unknown"}})
 }
